@@ -372,8 +372,11 @@ func (s *rstate) node(n gen.Node) error {
 		return es.module(t)
 	case *gen.NExtends, *gen.NUse:
 		// handled by module(); a use outside an extending template is out of region
-		if _, ok := n.(*gen.NUse); ok {
-			oor("use in a non-extending template")
+		if u, ok := n.(*gen.NUse); ok {
+			// an embedded template has the overrides of the embed in front of its own blocks: what it imports
+			// with use goes in between, as for an extending template. A template that is neither extending nor
+			// embedded is out of region.
+			return s.use(u)
 		}
 	case *gen.NDo:
 		_, err := s.eval(n.X)
